@@ -931,4 +931,74 @@ theorem writeCallbacks_wf (sc : Script) (s : S) (h : WF s) (hp : s.pq = []) :
     obtain ⟨b1, b2, b3, b4, b5, b6, b7⟩ := cbLoop_wf sc s.cq _ w rfl
     exact ⟨b1, b2, b3, b4, b5, fun hc => b6 hc, fun _ hx => absurd hx hcq, b7⟩
 
+theorem drain_wf (sc : Script) (s : S) (h : WF s) (hp : s.pq = []) (hcq : s.cq = []) (hwq : s.wq = []) :
+    WF (drain sc s) ∧ (drain sc s).pq = [] ∧ (drain sc s).connErr = s.connErr ∧
+    (drain sc s).closed = s.closed ∧ (s.hardErr = true → (drain sc s).hardErr = true) ∧
+    ClFrame s (drain sc s) ∧ (drain sc s).cbs = s.cbs := by
+  have w1 : WF { s with pollout := if !s.closing then false else s.pollout } :=
+    { wqs_eq := h.wqs_eq, wq_ok := h.wq_ok, sent_ok := h.sent_ok, done_ok := h.done_ok,
+      acc_eq := h.acc_eq, acc_lt := h.acc_lt,
+      closing_ok := (by
+        intro hc
+        have := h.closing_ok hc
+        have hc' : s.closing = true := hc
+        simp only [hc', Bool.not_true, Bool.false_eq_true, if_false]
+        exact this),
+      shut_ok := h.shut_ok, called_ok := h.called_ok, req_ok := h.req_ok, os_ok := h.os_ok,
+      cbs_ok := h.cbs_ok, mon_ok := h.mon_ok, closed_ok := h.closed_ok }
+  unfold drain
+  simp only [hp, hcq, hwq, List.append_nil, List.map_nil]
+  split
+  · exact ⟨w1, hp, rfl, rfl, id, fun hc => ⟨hc, rfl, rfl⟩, rfl⟩
+  · rename_i hreq
+    have hreq : s.shutdownReq = true := by cases hx : s.shutdownReq <;> simp_all
+    split
+    · rename_i hcond
+      split
+      · rename_i hcl
+        have hcl : s.closing = true := hcl
+        have w2 : WF { s with pollout := if !s.closing then false else s.pollout,
+                              shutdownReq := false, shutCbEarly := [] } :=
+          { wqs_eq := w1.wqs_eq, wq_ok := w1.wq_ok, sent_ok := w1.sent_ok, done_ok := w1.done_ok,
+            acc_eq := w1.acc_eq, acc_lt := w1.acc_lt, closing_ok := w1.closing_ok,
+            shut_ok := w1.shut_ok, called_ok := w1.called_ok, req_ok := (fun hh => by cases hh),
+            os_ok := w1.os_ok, cbs_ok := w1.cbs_ok,
+            mon_ok := ⟨h.mon_ok.1, rfl, h.mon_ok.2.2.1, h.mon_ok.2.2.2⟩, closed_ok := w1.closed_ok }
+        obtain ⟨a, b, c⟩ := userCb_emit_wf sc _ (.shutcb UV_ECANCELED) w2
+        exact ⟨a, b.pq.trans hp, b.connErr, b.closed, b.hard, c, b.cbs⟩
+      · rename_i hcl
+        have hcl : s.closing = false := by cases hx : s.closing <;> simp_all
+        have hsh : s.shut = false := by cases hx : s.shut <;> simp_all
+        have hwr : s.writable = false := h.req_ok hreq
+        have hcd : s.closed = false := by
+          cases hx : s.closed with
+          | false => rfl
+          | true => have := (h.closed_ok hx).1; rw [hcl] at this; cases this
+        have w2 : WF { s with
+            pollout := if !s.closing then false else s.pollout,
+            shutdownReq := false, shutSysPending := [],
+            trace := Ev.shutsys s.shutErr :: s.trace,
+            shut := if s.shutErr = 0 then true else s.shut,
+            osAtShut := if s.shutErr = 0 then some s.os else s.osAtShut,
+            shutCbEarly := [] } :=
+          { wqs_eq := w1.wqs_eq, wq_ok := w1.wq_ok, sent_ok := w1.sent_ok, done_ok := w1.done_ok,
+            acc_eq := w1.acc_eq, acc_lt := w1.acc_lt,
+            closing_ok := (by intro hc; simp only [] at hc; rw [hcl] at hc; cases hc),
+            shut_ok := (by
+              intro hh
+              simp only [] at hh ⊢
+              split at hh
+              · rename_i he
+                simp only [he, if_true]
+                exact ⟨rfl, hwq, hwr⟩
+              · rw [hsh] at hh; cases hh),
+            called_ok := w1.called_ok, req_ok := (fun hh => by cases hh),
+            os_ok := w1.os_ok, cbs_ok := w1.cbs_ok,
+            mon_ok := ⟨h.mon_ok.1, rfl, rfl, h.mon_ok.2.2.2⟩,
+            closed_ok := (by intro hh; simp only [] at hh; rw [hcd] at hh; cases hh) }
+        obtain ⟨a, b, c⟩ := userCb_emit_wf sc _ (.shutcb s.shutErr) w2
+        refine ⟨a, b.pq.trans hp, b.connErr, b.closed, b.hard, ?_, b.cbs⟩
+        intro hc; rw [hcl] at hc; cases hc
+    · exact ⟨w1, hp, rfl, rfl, id, fun hc => ⟨hc, rfl, rfl⟩, rfl⟩
+
 end UvModel.StreamW
